@@ -27,6 +27,10 @@ RESERVED = set(keyword.kwlist) | {
     "NUM_MONITORED", "lambda_", "array", "where",
 }
 
+import builtins as _builtins
+
+RESERVED |= set(dir(_builtins))
+
 _FIRST = "abcdefghijklmnopqrstuvwxyzABCDEFGHIJKLMNOPQRSTUVWXYZ"
 _REST = _FIRST + "0123456789_"
 
